@@ -27,6 +27,7 @@ inductive Ev where
   | cb (n : Nat)
   | sendCall (sid : Nat) | sendBad (sid : Nat) | write (c sid idx : Nat) | writeFail (c sid : Nat) | drainFail (c : Nat) | sendReturn (sid : Nat)
   | closeCall | writerClose (c : Nat) | closeReturn
+  | closeCallInRecv                -- close() called from inside the receive task (from the status callback it runs)
   | cfgWrite (c : Nat)             -- the serial client configures the adapter right after opening the port
   | cfgFail (c : Nat)              -- … and that write or drain fails: the attempt counts as failed
   | envFeed (c : Nat) | envEof (c : Nat) | envReadErr (c : Nat)
@@ -51,6 +52,7 @@ structure CS where
   faults : Nat := 0                -- connection faults seen (peer EOF / read error / write failure)
   closeCalled : Bool := false
   closeReturned : Bool := false
+  closeFromRecv : Bool := false    -- close() was called from inside the live receive task: that task is not cancelled, it ends by itself
   cbCount : Nat := 0
   activeSends : List Nat := []
   doneSends : List Nat := []       -- sends that returned (ids are never reused)
@@ -107,8 +109,10 @@ def stepCore (s : CS) (e : Ev) : Option CS :=
             | .closed => s.closeCalled))
       { s with st := t, statusLog := s.statusLog ++ [t] }
   | .recvStart c => guard (s.recv.isNone && s.conn = some c && s.st ≠ .closed) { s with recv := some c }
-  | .recvIter c progress => guard (s.recv = some c && progress) s
-  | .recvExit c _ => guard (s.recv = some c) { s with recv := none }
+  | .recvIter c progress => guard (s.recv = some c && progress && !s.closeFromRecv) s
+  | .recvExit c cancelled =>
+    -- after a close() from inside the receive task that task returns by itself: it is not cancelled
+    guard (s.recv = some c && !(s.closeFromRecv && cancelled)) { s with recv := none }
   | .cb n => guard (n = s.cbCount + 1 && !s.closeReturned) { s with cbCount := n }
   | .sendCall sid => guard (!s.activeSends.contains sid && !s.doneSends.contains sid) { s with activeSends := sid :: s.activeSends }
   | .sendBad sid => guard (s.activeSends.contains sid && s.lockHolder ≠ some sid) s
@@ -128,9 +132,10 @@ def stepCore (s : CS) (e : Ev) : Option CS :=
       { s with activeSends := s.activeSends.filter (· ≠ sid), doneSends := sid :: s.doneSends,
                lockHolder := if s.lockHolder = some sid then none else s.lockHolder }
   | .closeCall => some { s with closeCalled := true }
+  | .closeCallInRecv => guard s.recv.isSome { s with closeCalled := true, closeFromRecv := true }
   | .writerClose c => guard (s.st = .closed && s.conn = some c) { s with writerClosed := c :: s.writerClosed }
   | .closeReturn =>
-    guard (s.closeCalled && s.st = .closed && s.recv.isNone &&
+    guard (s.closeCalled && s.st = .closed && (s.recv.isNone || s.closeFromRecv) &&
            (match s.conn with | some c => s.writerClosed.contains c | none => true))
       { s with closeReturned := true }
   | .cfgWrite c => guard (s.okConn = some c && s.conn = some c) s
